@@ -87,11 +87,18 @@ Materialise(St, gs) ==
 \* the state after the pending decisions have been applied (for the frontier seen by __get_next_scheduler_event)
 AfterDecs(St) == ApplyDecs(MCW, St, St.pd.decs, <<>>, "", 0).S
 
+\* the workload loader: the graphs with init = TRUE are handed over in batches (gr[g].batch, default 1), one batch per
+\* UPDATE_WORKLOAD, added to the same workload; when nothing is left the loader answers None
+BatchOf(St, g) == IF "batch" \in DOMAIN St.gr[g] THEN St.gr[g].batch ELSE 1
+NotHanded(St) == {g \in 1..Len(St.gr) : St.gr[g].init /\ g \notin Range(St.wl)}
+NextBatch(St) ==
+    IF NotHanded(St) = {} THEN <<>>
+    ELSE LET b == CHOOSE b \in {BatchOf(St, g) : g \in NotHanded(St)} : \A g \in NotHanded(St) : b <= BatchOf(St, g)
+         IN  SelectSeq([g \in 1..Len(St.gr) |-> g], LAMBDA g : g \in NotHanded(St) /\ BatchOf(St, g) = b)
 Bind(St, e, draw, ans) ==
     [ draw |-> draw,
-      upd |-> e.ty = E_UPDATE /\ St.wl = <<>>,
-      newg |-> IF e.ty = E_UPDATE /\ St.wl = <<>> THEN SelectSeq([g \in 1..Len(St.gr) |-> g], LAMBDA g : St.gr[g].init)
-               ELSE ClosedNew(St, e),
+      upd |-> e.ty = E_UPDATE /\ NotHanded(St) # {},
+      newg |-> IF e.ty = E_UPDATE THEN NextBatch(St) ELSE ClosedNew(St, e),
       fuzz |-> IF e.ty = E_PLACEMENT THEN St.ts[e.t].rem ELSE 0,
       decs |-> [rt |-> SchedRt, decs |-> ans],
       offered1 |-> Offered(St),
